@@ -20,8 +20,8 @@ type Case struct {
 	Shape   []int `json:"shape"`   // statements per file
 	Choices []int `json:"choices"` // explorer choice list
 	Crash   bool  `json:"crash_alphabet"`
-	// Ck: 1-based index of the file that is a checkpoint (`-- atlas:checkpoint`), 0 = none. A first
-	// run on an empty history starts at the checkpoint; the files before it are never executed.
+	// Ck: bit i set = file i+1 is a checkpoint (`-- atlas:checkpoint`); 0 = none. A first run on an
+	// empty history starts at the latest checkpoint; the files before it are never executed.
 	Ck int `json:"checkpoint,omitempty"`
 }
 
@@ -38,9 +38,11 @@ const horizon = 6
 
 // exec runs one execution and returns the list of problems (empty = property held).
 func exec(shape []int, crashAlpha bool, ck int, x *explore.X) (problems []string, faults int, trace []string) {
-	st := 0 // first file a run on an empty history executes
-	if ck > 0 {
-		st = ck - 1
+	st := 0 // first file a run on an empty history executes: the latest checkpoint
+	for f := range shape {
+		if ck&(1<<f) != 0 {
+			st = f
+		}
 	}
 	files := map[string]string{}
 	var names []string
@@ -52,7 +54,7 @@ func exec(shape []int, crashAlpha bool, ck int, x *explore.X) (problems []string
 		name := fmt.Sprintf("%d_f.sql", f+1)
 		names = append(names, name)
 		files[name] = mighelp.StmtFile(stmtsOf[f])
-		if f+1 == ck {
+		if ck&(1<<f) != 0 {
 			files[name] = "-- atlas:checkpoint\n\n" + files[name]
 		}
 	}
@@ -306,7 +308,7 @@ func Run(r *report.Run) {
 	if r.Tier == "thorough" {
 		bound = 3
 	}
-	r.Rule = "every directory shape (1..3 files x 1..3 statements; no checkpoint or any one file a checkpoint) x every placement of <=bound faults over the choice points {ExecContext: ok/fail, WriteRevision: ok/fail-without-persist} and, in the crash alphabet, additionally {die before, die after} at both kinds of point, followed by clean re-runs; real migrate.Executor over a recording driver/store; non-trivial = execution with >=1 injected fault; distinct = (shape, checkpoint, alphabet, choice list)"
+	r.Rule = "every directory shape (1..3 files x 1..3 statements; any subset of the files being checkpoints) x every placement of <=bound faults over the choice points {ExecContext: ok/fail, WriteRevision: ok/fail-without-persist} and, in the crash alphabet, additionally {die before, die after} at both kinds of point, followed by clean re-runs; real migrate.Executor over a recording driver/store; non-trivial = execution with >=1 injected fault; distinct = (shape, checkpoint, alphabet, choice list)"
 	r.Assumptions = []string{
 		"a failed revision write persists nothing; a simulated process death freezes both stores (deferred code may run but cannot write)",
 		"statement texts are unique per directory so the recording driver can identify them",
@@ -332,7 +334,7 @@ func Run(r *report.Run) {
 	}
 	var jobs []job
 	for _, s := range shapes {
-		for ck := 0; ck <= len(s); ck++ {
+		for ck := 0; ck < 1<<len(s); ck++ {
 			jobs = append(jobs, job{s, false, ck}, job{s, true, ck})
 		}
 	}
@@ -361,7 +363,7 @@ func Run(r *report.Run) {
 						return
 					}
 				}
-				r.Violate("", fmt.Sprintf("shape=%v checkpoint=%d crash=%v choices=%v: %s", j.shape, j.ck, j.crash, cs, strings.Join(problems, " | ")), c)
+				r.Violate("", fmt.Sprintf("shape=%v checkpoints=%b crash=%v choices=%v: %s", j.shape, j.ck, j.crash, cs, strings.Join(problems, " | ")), c)
 			}
 			if faults == 2 && len(j.shape) == 2 && j.ck == 0 {
 				r.Sample(map[string]any{"shape": j.shape, "crash_alphabet": j.crash, "choices": cs, "trace": trace})
